@@ -516,35 +516,54 @@ def rule_OP(run: Run) -> RuleResult:
     cm = repo.modules.get("labrea.collections")
     if cm is None:
         raise AnalysisError("labrea/collections.py not found")
-    want = {"evaluatable_list": "Iter(*evaluatables).apply(list)", "evaluatable_tuple": "Iter(*evaluatables).apply(tuple)",
-            "evaluatable_set": "Iter(*evaluatables).apply(set)", "evaluatable_dict": "Iter(*pairs).apply(dict)"}
-    for fname, form in want.items():
+    # decided on what the built expression evaluates to (a probe call `evaluatable_list(*xs).evaluate(options)` followed through the
+    # classes involved), not on how it is built: the elements are the arguments' values in argument order, gathered by the matching builtin
+    want = {"evaluatable_list": ("list", "*evaluatables"), "evaluatable_tuple": ("tuple", "*evaluatables"),
+            "evaluatable_set": ("set", "*evaluatables"), "evaluatable_dict": ("dict", "contents")}
+    for fname, (builtin, params) in want.items():
         fi = repo.functions.get(f"labrea.collections.{fname}")
         if fi is None:
             raise AnalysisError(f"labrea.collections.{fname} not found")
-        builtin = form.split(".apply(")[1].rstrip(")")
-        fps = [p for p in analyse_function(Ctx(repo), fi.module, fi.node) if p.status == "ret"]
+        own = astu.param_names(fi.node)
+        va = fi.node.args.vararg.arg if fi.node.args.vararg is not None else None
+        call_args = f"*{va}" if va else ", ".join(own)
+        sig = f"*{va}" if va else ", ".join(own)
+        probe = ast.parse(f"def __probe__({sig}{', ' if sig else ''}options=None):\n    return {fname}({call_args}).evaluate(options)\n").body[0]
+        pctx = Ctx(repo)
+        pctx.track_conversions = True
+        try:
+            fps = [p for p in analyse_function(pctx, fi.module, probe) if p.status == "ret"]
+        except AnalysisError as e_:
+            fps = []
+            res.notes.append(f"R-OP {fname}: {e_}")
         ok = bool(fps)
         shown = []
-        nonempty = False
         for p in fps:
-            r_ = p.ret
-            k_ = r_.key()
-            shown.append(k_[:90])
-            good = isinstance(r_, New) and r_.cls.name == "Apply" and r_.attrs.get("func") is not None and r_.attrs["func"].key() == f"name<{builtin}>" \
-                and isinstance(r_.attrs.get("evaluatable"), New) and r_.attrs["evaluatable"].cls.name == "Iter" and "reordered:" not in k_
-            if good:
-                inner = r_.attrs["evaluatable"].attrs.get("evaluatables")
-                ik = inner.key() if inner is not None else ""
-                if fname == "evaluatable_dict":
-                    good = "Seq[New(Value;value=key(contents)),elem(contents)]" in ik.replace("call:items(contents)", "contents") or "list[]" in ik
-                else:
-                    good = ik in ("Coll(Child(*evaluatables[*]))", "Child(*evaluatables)")
-                if good and "list[]" not in ik:
-                    nonempty = True
-            ok = ok and good
-        ok = ok and nonempty
-        res.add(f"labrea.collections.{fname}:arguments in order through {form.split('.apply')[1]}", ok, cm.relpath, fi.node.lineno, f"{shown}", nec)
+            k_ = p.ret.key()
+            shown.append(k_[:110])
+            src = va or (own[0] if own else "")
+            if builtin == "dict":
+                import re as _re
+                from .interp import Frame as _F
+                PAIR = r"Val\(evaluate,New\(Iter;evaluatables=Seq\[New\(Value;value=key\((.+?)\)\),elem\((.+?)\)\]\)\)"
+                m_ = _re.fullmatch(r"(?:call:dict\(|callres\(call:dict\(options\),)(?:Coll\(" + PAIR + r"\)|Seq\[" + PAIR + r"\])\)", k_)
+                g_ = [x for x in (m_.groups() if m_ else ()) if x is not None]
+                good = m_ is not None and len(g_) == 2 and g_[0] == g_[1] and src in g_[0]
+                if not good and _re.fullmatch(r"(?:call:dict\(|callres\(call:dict\(options\),)(?:Seq\[\]|Coll\(call:evaluate\(elem\(list\[\]\),options\)\))\)", k_):
+                    # nothing to gather: the pairs were collected by a loop that ran zero times, or a path found them empty
+                    good = "elem(list[])" in k_ or any(pol_ is False and a_.startswith("Coll(New(Iter;evaluatables=Seq[New(Value;value=key(") for a_, pol_ in _F.atoms(p.conds).items())
+            else:
+                elems = f"Coll(Val(evaluate,Child(*{src}[*])))"
+                convs = [e for e in p.events if e.kind == "call" and e.text.startswith("conv:") and e.args and e.args[0].key() == elems]
+                good = k_ == elems and bool(convs) and convs[-1].text == "conv:" + builtin
+                if not good and k_ == "Seq[]":
+                    # nothing to gather: a path that found the arguments empty may hand back the empty collection, built by the same builtin
+                    from .interp import Frame as _F
+                    empt = [e for e in p.events if e.kind == "call" and e.text == "conv:" + builtin and e.args and e.args[0].key() == "Seq[]"]
+                    good = bool(empt) and _F.atoms(p.conds).get(f"Coll(Child(*{src}[*]))") is False
+            ok = ok and good and "reordered:" not in k_
+        res.add(f"labrea.collections.{fname}:arguments in order through ({builtin})", ok, cm.relpath, fi.node.lineno,
+                f"{fname}(...).evaluate(options) yields {sorted(set(shown))}" + ("" if ok else f"; expected the values of the arguments in argument order gathered by {builtin}()"), nec)
     it_cls = repo.cls("Iter")
     init = it_cls.methods.get("__init__")
     ok = init is not None
